@@ -99,10 +99,10 @@ def bindElems : List Binder → List Val → Env → Env
 /-- Bind the fields a struct pattern names (references to the fields); `none`: no such field. -/
 def bindFields (x : Val) : List FieldName → Env → Option Env
   | [], env => some env
-  | f :: fs, env => do
-    let w ← x.field f
-    let env' ← bindFields x fs env
-    pure (env'.set (Name.field f).key ⟨w, 1⟩)
+  | f :: fs, env =>
+    match x.field f, bindFields x fs env with
+    | some w, some env' => some (env'.set (Name.field f).key ⟨w, 1⟩)
+    | _, _ => none
 
 def Binder.isRest : Binder → Bool
   | .rest => true
